@@ -1,6 +1,7 @@
 package props
 
 import (
+	"bufio"
 	"bytes"
 	"errors"
 	"fmt"
@@ -44,6 +45,12 @@ import (
 // payload kinds: n nil | S string | Y []byte | J struct | M map | r io.Reader | b *bytes.Buffer |
 // s *strings.Reader | c io.ReadCloser.  chunking: 2*c+e — every Read delivers at most c bytes (0 = no
 // limit); e=1: the last bytes arrive together with io.EOF.
+//
+// What the line does not say is chosen by the case's own fields (c11Opts) among things that make no
+// difference to what must be sent: which of the library's ways leads to the request (a fresh Runtime or
+// one that has built many requests, CreateHttpRequest or Submit — then the body is what the transport
+// reads), how the media type and the auth writer are given, in which order and how often the operation
+// sets its parameters, and which Go types stand behind "a reader", "a stream", "a file" and "a value".
 func init() {
 	proto.Register(&proto.Prop{ID: "C11", Gen: c11Gen, Exec: c11Exec, Corpus: c11Corpus()})
 }
@@ -241,14 +248,89 @@ func (r *c11Reader) Read(p []byte) (int, error) {
 	return n, nil
 }
 
-type c11ReadCloser struct{ c11Reader }
+type c11ReadCloser struct {
+	c11Reader
+	closeErr error // what Close reports (upload files only: nobody is told)
+}
 
 func (r *c11ReadCloser) Close() error {
 	if r.closed != nil {
 		*r.closed++
 	}
-	return nil
+	return r.closeErr
 }
+
+// c11RichReader: a reader that also offers what bytes.Reader and os.File offer (Len, Size, Seek, ReadAt,
+// WriteTo — io.Copy prefers WriteTo), all of them speaking about the bytes from the current position on.
+type c11RichReader struct{ *c11Reader }
+
+func (r c11RichReader) Len() int    { return len(r.data) - r.pos }
+func (r c11RichReader) Size() int64 { return int64(len(r.data)) }
+func (r c11RichReader) Seek(off int64, whence int) (int64, error) {
+	switch whence {
+	case io.SeekCurrent:
+		off += int64(r.pos)
+	case io.SeekEnd:
+		off += int64(len(r.data))
+	}
+	if off < 0 || off > int64(len(r.data)) {
+		return 0, errors.New("c11: seek out of range")
+	}
+	r.pos = int(off)
+	return off, nil
+}
+func (r c11RichReader) ReadAt(p []byte, off int64) (int, error) {
+	if off >= int64(len(r.data)) {
+		return 0, io.EOF
+	}
+	n := copy(p, r.data[off:])
+	if n < len(p) {
+		return n, io.EOF
+	}
+	return n, nil
+}
+func (r c11RichReader) WriteTo(w io.Writer) (int64, error) {
+	n, err := w.Write(r.data[r.pos:])
+	r.pos += n
+	return int64(n), err
+}
+
+// c11RichFile: an upload with all of that, handed over positioned past a prefix the caller has consumed
+type c11RichFile struct {
+	c11RichReader
+	*c11File
+}
+
+func (f c11RichFile) Read(p []byte) (int, error) { return f.c11File.Read(p) }
+
+// … and one that declares its type on top (io.Copy is then handed the file itself and takes its WriteTo)
+type c11TypedRichFile struct {
+	c11RichFile
+	ct string
+}
+
+func (f c11TypedRichFile) ContentType() string { return f.ct }
+
+// c11OSStream: a stream payload backed by a real file (Close is counted, then passed on)
+type c11OSStream struct {
+	*os.File
+	closed *int
+}
+
+func (s c11OSStream) Close() error {
+	*s.closed++
+	return s.File.Close()
+}
+
+// c11TypedOSFile: a real file that declares its type (not an *os.File in the eyes of SetFileParam)
+type c11TypedOSFile struct {
+	*os.File
+	ct string
+}
+
+func (f c11TypedOSFile) ContentType() string { return f.ct }
+
+const c11Consumed = "\x89PNG\r\n\x1a\nprefix-the-caller-has-already-consumed"
 
 type c11File struct {
 	c11ReadCloser
@@ -271,15 +353,29 @@ type c11Struct struct {
 	Count int    `json:"count" xml:"count"`
 }
 
+type c11Str string
+
+// c11Value: the value payload (the oracle hands the very same value to the producer itself). Every other one
+// is the pointer / named-type / nested variant of its kind.
 func c11Value(pk, data string) interface{} {
+	alt := len(data)%2 == 1
 	switch pk {
 	case "S":
+		if alt {
+			return c11Str(data)
+		}
 		return data
 	case "Y":
 		return []byte(data)
 	case "J":
+		if alt {
+			return &c11Struct{Name: data, Count: len(data)}
+		}
 		return c11Struct{Name: data, Count: len(data)}
 	case "M":
+		if alt {
+			return map[string]interface{}{"k": data, "nested": map[string]interface{}{"list": []interface{}{data, 1, nil, true}}}
+		}
 		return map[string]interface{}{"k": data}
 	}
 	return nil
@@ -314,8 +410,42 @@ func c11Producer(key string) runtime.Producer {
 // ---- executor
 
 type c11Built struct {
-	req *http.Request
+	req         *http.Request
+	err         error
+	closedEarly bool // the stream payload was closed before anybody read the request body
+}
+
+type c11Read struct {
+	b   []byte
 	err error
+}
+
+// c11Opts: the choices a case makes for itself (a hash of its line)
+type c11Opts struct {
+	way        int  // 0 fresh Runtime + CreateHttpRequest | 1 the long-lived Runtime + CreateHttpRequest | 2 the long-lived Runtime + Submit
+	consumes   int  // 0 ConsumesMediaTypes = [mt] | 1 none (Runtime.DefaultMediaType = mt) | 2 ["", mt, another]
+	defaultAuth bool // the auth writer is the Runtime's DefaultAuthentication, not the operation's AuthInfo
+	filesFirst bool // the operation sets files, then form fields, then the body
+	twice      bool // … and sets each of them to something else first
+	impl       int  // which Go type stands behind the payload / the uploads
+}
+
+func c11OptsOf(in []string) c11Opts {
+	h := c10Pick(in, 1<<20)
+	return c11Opts{way: h % 3, consumes: (h >> 2) % 3, defaultAuth: (h>>4)%2 == 1, filesFirst: (h>>5)%2 == 1, twice: (h>>6)%2 == 1, impl: (h >> 7) % 60}
+}
+
+// the long-lived Runtime and its transport (the http.Client of a Runtime is made once, from the Transport it
+// has then: the transport stays, its listener changes with the case)
+var c11SharedRT *client.Runtime
+var c11SharedTransport = &c11Transport{}
+
+type c11Transport struct{ onRequest func(*http.Request) }
+
+func (t *c11Transport) RoundTrip(req *http.Request) (*http.Response, error) {
+	t.onRequest(req)
+	return &http.Response{Status: "204 No Content", StatusCode: 204, Proto: "HTTP/1.1", ProtoMajor: 1, ProtoMinor: 1,
+		Header: http.Header{"Content-Type": []string{runtime.JSONMime}}, Body: http.NoBody, Request: req}, nil
 }
 
 func c11Exec(in []string) []string {
@@ -325,25 +455,77 @@ func c11Exec(in []string) []string {
 	}
 	c11TmpFiles = c11TmpFiles[:0]
 
-	rt := client.New("localhost", "/", []string{"http"})
+	opts := c11OptsOf(in)
+	var rt *client.Runtime
+	if opts.way == 0 {
+		rt = client.New("localhost", "/", []string{"http"})
+	} else {
+		if c11SharedRT == nil {
+			c11SharedRT = client.New("localhost", "/", []string{"http"})
+			c11SharedRT.Transport = c11SharedTransport
+		}
+		rt = c11SharedRT
+	}
 	rt.Producers = map[string]runtime.Producer{}
 	for _, k := range c.prods {
 		rt.Producers[k] = c11Producer(k)
 	}
+	consumes := []string{c.mt}
 	rt.DefaultMediaType = c.mt
+	switch {
+	case opts.consumes == 1:
+		consumes = nil
+	case opts.consumes == 2 && c.mt != "":
+		// the first non-empty entry counts
+		consumes, rt.DefaultMediaType = []string{"", c.mt, "application/x-second-choice"}, "application/x-not-asked"
+	}
 
 	payloadClosed := 0
+	pchunk, peof := 0, len(c.pdata)%2 == 1
+	if len(c.pdata)%3 != 0 {
+		pchunk = 1 + len(c.pdata)%11 // a payload reader may deliver its bytes in small reads, too
+	}
 	var payload interface{}
 	switch c.pk {
 	case "n":
 	case "r":
-		payload = &c11Reader{data: []byte(c.pdata)}
+		plain := &c11Reader{data: []byte(c.pdata), chunk: pchunk, eofWith: peof}
+		switch opts.impl % 5 {
+		case 0:
+			payload = plain
+		case 1:
+			payload = bytes.NewReader([]byte(c.pdata))
+		case 2:
+			payload = bufio.NewReaderSize(plain, 16)
+		case 3:
+			payload = io.MultiReader(strings.NewReader(c.pdata[:len(c.pdata)/2]), &c11Reader{data: []byte(c.pdata[len(c.pdata)/2:]), chunk: pchunk, eofWith: peof})
+		default:
+			// positioned past a prefix, and offering Len / Seek / WriteTo
+			plain.data, plain.pos = append([]byte(c11Consumed), plain.data...), len(c11Consumed)
+			payload = c11RichReader{plain}
+		}
 	case "b":
 		payload = bytes.NewBufferString(c.pdata)
+		if opts.impl%3 == 1 {
+			// a buffer the caller has already read a prefix from
+			b := bytes.NewBufferString(c11Consumed + c.pdata)
+			b.Next(len(c11Consumed))
+			payload = b
+		}
 	case "s":
 		payload = strings.NewReader(c.pdata)
+		if opts.impl%3 == 1 {
+			sr := strings.NewReader(c11Consumed + c.pdata)
+			_, _ = sr.Seek(int64(len(c11Consumed)), io.SeekStart)
+			payload = sr
+		}
 	case "c":
-		payload = &c11ReadCloser{c11Reader{data: []byte(c.pdata), closed: &payloadClosed}}
+		payload = &c11ReadCloser{c11Reader: c11Reader{data: []byte(c.pdata), closed: &payloadClosed, chunk: pchunk, eofWith: peof}}
+		if opts.impl%3 == 1 {
+			if fh := c11OSFile(c11FileIn{name: "payload.bin", content: c.pdata}, 1-len(c.pdata)%5); fh != nil {
+				payload = c11OSStream{fh, &payloadClosed} // a real file, positioned past a prefix
+			}
+		}
 	default:
 		payload = c11Value(c.pk, c.pdata)
 		if payload == nil {
@@ -359,22 +541,54 @@ func c11Exec(in []string) []string {
 				return err
 			}
 		}
-		if payload != nil {
-			if err := req.SetBodyParam(payload); err != nil {
+		setBody := func() error {
+			if payload == nil {
+				return nil
+			}
+			if opts.twice {
+				// the last Set counts
+				if err := req.SetBodyParam(strings.NewReader("a body set before")); err != nil {
+					return err
+				}
+			}
+			return req.SetBodyParam(payload)
+		}
+		setFields := func() error {
+			for i, n := range c.fnames {
+				if opts.twice {
+					if err := req.SetFormParam(n, "set", "before"); err != nil {
+						return err
+					}
+				}
+				if err := req.SetFormParam(n, c.fvals[i]...); err != nil {
+					return err
+				}
+			}
+			return nil
+		}
+		if !opts.filesFirst {
+			if err := setBody(); err != nil {
 				return err
 			}
-		}
-		for i, n := range c.fnames {
-			if err := req.SetFormParam(n, c.fvals[i]...); err != nil {
+			if err := setFields(); err != nil {
 				return err
 			}
 		}
 		for i, n := range c.ffnames {
 			files := make([]runtime.NamedReadCloser, len(c.files[i]))
 			for j, f := range c.files[i] {
-				base := &c11File{name: f.name, c11ReadCloser: c11ReadCloser{c11Reader{data: []byte(f.content), chunk: f.chunking / 2, eofWith: f.chunking%2 == 1}}}
+				base := &c11File{name: f.name, c11ReadCloser: c11ReadCloser{c11Reader: c11Reader{data: []byte(f.content), chunk: f.chunking / 2, eofWith: f.chunking%2 == 1}}}
+				if (opts.impl+j)%4 == 1 {
+					base.closeErr = errors.New("c11: this upload cannot be closed properly")
+				}
 				if f.hasDecl {
 					files[j] = c11TypedFile{base, f.decl}
+					if osf := c11OSFile(f, (1+5-len(f.content)%5)%5); osf != nil && (opts.impl+j)%3 == 0 {
+						files[j] = c11TypedOSFile{osf, f.decl} // a real file (positioned or not) that declares its type
+					} else if (opts.impl+j)%3 == 2 {
+						base.data, base.pos = append([]byte(c11Consumed), base.data...), len(c11Consumed)
+						files[j] = c11TypedRichFile{c11RichFile{c11RichReader{&base.c11Reader}, base}, f.decl}
+					}
 				} else if osf := c11OSFile(f, j); osf != nil {
 					// a real *os.File (SetFileParam stats it; its Name() is a full path)
 					files[j] = osf
@@ -387,11 +601,28 @@ func c11Exec(in []string) []string {
 						// name asked for last is the file's name
 						files[j] = runtime.NamedReader(f.name, runtime.NamedReader("earlier-name.tmp", &base.c11ReadCloser))
 					}
+				} else if (opts.impl+j)%3 == 2 {
+					// an upload that stands past a prefix the caller has read and offers Len / Seek / WriteTo
+					base.data, base.pos = append([]byte(c11Consumed), base.data...), len(c11Consumed)
+					files[j] = c11RichFile{c11RichReader{&base.c11Reader}, base}
 				} else {
 					files[j] = base
 				}
 			}
+			if opts.twice {
+				if err := req.SetFileParam(n, &c11File{name: "set-before.txt", c11ReadCloser: c11ReadCloser{c11Reader: c11Reader{data: []byte("set before")}}}); err != nil {
+					return err
+				}
+			}
 			if err := req.SetFileParam(n, files...); err != nil {
+				return err
+			}
+		}
+		if opts.filesFirst {
+			if err := setFields(); err != nil {
+				return err
+			}
+			if err := setBody(); err != nil {
 				return err
 			}
 		}
@@ -423,7 +654,12 @@ func c11Exec(in []string) []string {
 		})
 	}
 	op := &runtime.ClientOperation{ID: "c11", Method: c.method, PathPattern: "/x", ProducesMediaTypes: []string{runtime.JSONMime},
-		ConsumesMediaTypes: []string{c.mt}, Schemes: []string{"http"}, Params: writer, AuthInfo: auth}
+		ConsumesMediaTypes: consumes, Schemes: []string{"http"}, Params: writer, AuthInfo: auth}
+	rt.DefaultAuthentication = nil
+	if opts.defaultAuth {
+		op.AuthInfo, rt.DefaultAuthentication = nil, auth
+	}
+	op.Reader = runtime.ClientResponseReaderFunc(func(runtime.ClientResponse, runtime.Consumer) (interface{}, error) { return nil, nil })
 
 	// the oracle values (external functions the model is parameterised by), computed independently
 	prod := "na"
@@ -452,15 +688,39 @@ func c11Exec(in []string) []string {
 
 	// build; a build that never returns (a pipe nobody writes to) is reported as `hang`
 	done := make(chan c11Built, 1)
+	bodyRead := make(chan c11Read, 1)
 	panicked := make(chan interface{}, 1)
+	drain := func(req *http.Request) {
+		b, err := io.ReadAll(req.Body)
+		_ = req.Body.Close()
+		bodyRead <- c11Read{b, err}
+	}
 	go func() {
 		defer func() {
 			if r := recover(); r != nil {
 				panicked <- r
 			}
 		}()
+		if opts.way == 2 {
+			// Submit: the request is the one the transport is handed, the body what the transport reads from it
+			reached := false
+			c11SharedTransport.onRequest = func(req *http.Request) {
+				reached = true
+				done <- c11Built{req: req, closedEarly: payloadClosed > 0}
+				if req.Body != nil {
+					drain(req)
+				}
+			}
+			if _, err := rt.Submit(op); !reached {
+				done <- c11Built{err: err}
+			}
+			return
+		}
 		req, err := rt.CreateHttpRequest(op)
-		done <- c11Built{req, err}
+		done <- c11Built{req: req, err: err, closedEarly: payloadClosed > 0}
+		if err == nil && req.Body != nil {
+			drain(req)
+		}
 	}()
 	empty := []string{".", ".", "_", ".", "_", ".", ".", ".", "."}
 	tail := func() []string { return []string{prod, proto.L(sniffs), "err", ".", "_"} }
@@ -483,7 +743,7 @@ func c11Exec(in []string) []string {
 		return append(out, tail()...)
 	}
 	req := built.req
-	closedEarly := payloadClosed > 0
+	closedEarly := built.closedEarly
 
 	ctvals := req.Header.Values(runtime.HeaderContentType)
 	ctmedia, boundary := "!", "!"
@@ -499,18 +759,8 @@ func c11Exec(in []string) []string {
 	bodykind, raw := "nobody", []byte(nil)
 	if req.Body != nil {
 		bodykind = "raw"
-		type rd struct {
-			b   []byte
-			err error
-		}
-		ch := make(chan rd, 1)
-		go func() {
-			b, err := io.ReadAll(req.Body)
-			_ = req.Body.Close()
-			ch <- rd{b, err}
-		}()
 		select {
-		case r := <-ch:
+		case r := <-bodyRead:
 			raw = r.b
 			if r.err != nil {
 				bodykind = "readerr"
